@@ -28,9 +28,9 @@ def run(tier, seed):
         "lemma by induction: no selected rule => empty chain), and getRules, under the representation invariant RI (cache None or == Filter), returns Filter(rules, chainName) and keeps RI. "
         "Induction over the call history is the composition step (not machine-checked): RI holds after __init__ (cache None), every mutator re-establishes it by invalidation, getRules preserves it - so what parsing "
         "applies on every chain equals the enabled rules filtered by chain membership after any history.")
-    rep.trusted_base = ["pyvc (vf/), z3 5.1.0, cvc5 1.0.3 on z3 unknowns", "Python semantics as listed in DESIGN.md 2.4",
+    rep.trusted_base += ["pyvc (vf/), z3 5.1.0, cvc5 1.0.3 on z3 unknowns", "Python semantics as listed in DESIGN.md 2.4",
                         "Rule records have value semantics (a Rule is only created as an argument of insert/append)"]
-    rep.assumptions = ["Find(rules, n, name) is declared by its characterisation (least index or -1)",
+    rep.assumptions += ["Find(rules, n, name) is declared by its characterisation (least index or -1)",
                        "options.get('alt', []) yields an immutable list value (compared by identity)",
                        "induction over finite call histories (composition, not machine-checked)",
                        "Rule.alt lists are immutable values with membership Mem(l, c) <=> exists j < len(l). l[j] == c; `for chain in <set>` visits each element once in an arbitrary order",
